@@ -32,16 +32,16 @@ type Item struct {
 
 // Script is the ordered SMT script for one verification unit (function or lemma).
 type Script struct {
-	Unit     string
-	sorts    []string // sort/datatype declarations (prefix)
-	funs     []string // uninterpreted function declarations & axioms (prefix)
-	declared map[string]bool
-	Items    []Item
-	fresh    int
-	typeTags map[string]int
-	strLits  map[string]string
-	world    *World
-	used     map[string]bool // assumed library models / axioms used
+	Unit         string
+	sorts        []string // sort/datatype declarations (prefix)
+	funs         []string // uninterpreted function declarations & axioms (prefix)
+	declared     map[string]bool
+	Items        []Item
+	fresh        int
+	typeTags     map[string]int
+	strLits      map[string]string
+	world        *World
+	used         map[string]bool // assumed library models / axioms used
 	uncontracted map[string]bool
 }
 
@@ -513,8 +513,8 @@ func ite(c, a, b string) string {
 	return "(ite " + c + " " + a + " " + b + ")"
 }
 
-func sel(m, i string) string       { return "(select " + m + " " + i + ")" }
-func sto(m, i, v string) string    { return "(store " + m + " " + i + " " + v + ")" }
+func sel(m, i string) string    { return "(select " + m + " " + i + ")" }
+func sto(m, i, v string) string { return "(store " + m + " " + i + " " + v + ")" }
 func eq(a, b string) string {
 	if a == b {
 		return "true"
